@@ -469,6 +469,7 @@ class DykstraLog(object):
         st_["sweeps"].append(st_["cI"])
         by_rule = st_["cnt"] > 0 and st_["sweeps"][-1] < tol
         self.calls.append({"out": np.array(x, dtype=float, copy=True), "by_rule": bool(by_rule), "sweeps": st_["cnt"],
+                           "last": st_["sweeps"][-1], "early": [v for v in st_["sweeps"][:-1] if v < tol][:1],
                            "tol": float(tol), "p": len(P), "max_iter": max_iter, "x_in": np.array(x0, dtype=float, copy=True)})
         return x
 
@@ -615,7 +616,7 @@ def draw_geometry(draw, n, kind, place_full=True):
 
 
 @st.composite
-def draw_options(draw, n, npt, prof, has_two_sided):
+def draw_options(draw, n, npt, prof, has_two_sided, force_opt=None):
     """user_params and related arguments; respects the preconditions listed in DESIGN.md section 3.4."""
     up = {}
     tags = []
@@ -657,7 +658,9 @@ def draw_options(draw, n, npt, prof, has_two_sided):
             if draw(st.integers(0, 5)) == 0:
                 up["restarts.soft.max_fake_successful_steps"] = draw(st.sampled_from([1, 2, 4]))
     if prof["opts"]:
-        o = draw(st.integers(0, 11))
+        o = draw(st.sampled_from(prof.get("opts_list") or list(range(12))))
+        if force_opt is not None:
+            o = force_opt
         if o == 0 and n > 1 and npt == n + 1 and "restarts.increase_npt" not in up:
             up["growing.ndirs_initial"] = draw(st.integers(1, n - 1))
             g = draw(st.sampled_from(["default", "perturb", "newdirs", "geom", "safety_reduce", "safety_full", "reset"]))
@@ -778,7 +781,11 @@ def scenarios(draw, prof=None):
     npt = n + 1
     if prof["npt_extra"] and draw(st.integers(0, 2)) == 0:
         npt = draw(st.integers(n + 1, min(2 * n + 1, maxnpt)))
-    up, otags, mode = draw(draw_options(n, npt, prof, True))
+    force_opt = None
+    if prof.get("regression_bias") and maxnpt > n + 1 and draw(st.floats(0, 1)) < prof["regression_bias"]:
+        npt = draw(st.integers(n + 2, min(2 * n + 1, maxnpt)))      # regression set + extra (geometry or momentum) steps
+        force_opt = 2
+    up, otags, mode = draw(draw_options(n, npt, prof, True, force_opt))
     tags += otags
     case["npt"] = npt
     rb = case["rhobeg"]
@@ -818,22 +825,27 @@ def scenarios(draw, prof=None):
 
 
 @st.composite
-def draw_sets(draw, n, z, mag, kinds=("ball", "half", "box"), nmin=1, nmax=3):
+def draw_sets(draw, n, z, mag, kinds=("ball", "half", "box"), nmin=1, nmax=3, touching=False):
     """Convex sets built *around* the point z with a drawn margin: the intersection has non-empty interior by
     construction (no rejection)."""
     sets = []
     z = np.array(z, dtype=float)
     for _ in range(draw(st.integers(nmin, nmax))):
         kind = draw(st.sampled_from(list(kinds)))
-        margin = mag * draw(st.sampled_from([0.05, 0.3, 1.0, 3.0]))
+        margin = mag * draw(st.sampled_from([0.05, 0.3, 1.0, 3.0] + ([0.0, 0.0, 0.0] if touching else [])))
+        if margin == 0.0 and kind == "box":
+            kind = "half"       # touching = the set's boundary passes through z (z stays in the set up to an ulp)
         if kind == "ball":
             off = np.array([draw(g8) / 4.0 * mag for _ in range(n)])
-            sets.append({"kind": "ball", "c": (z + off).tolist(), "r": float(np.linalg.norm(off) + margin)})
+            if margin == 0.0 and not np.any(off):
+                off[0] = mag
+            c = z + off
+            sets.append({"kind": "ball", "c": c.tolist(), "r": float(np.linalg.norm(z - c) * (1 + 4 * EPS) + margin)})
         elif kind == "half":
             a = np.array([draw(g8) for _ in range(n)])
             if not np.any(a):
                 a[draw(st.integers(0, n - 1))] = 1.0
-            sets.append({"kind": "half", "a": a.tolist(), "beta": float(a.dot(z) + margin * np.linalg.norm(a))})
+            sets.append({"kind": "half", "a": a.tolist(), "beta": float(a.dot(z) + margin * np.linalg.norm(a) + (4 * EPS * abs(a.dot(z)) if margin == 0.0 else 0.0))})
         elif kind == "box":
             lo = [float(z[i] - margin - abs(draw(g8)) * mag) for i in range(n)]
             up = [float(z[i] + margin + abs(draw(g8)) * mag) for i in range(n)]
